@@ -18,6 +18,7 @@ import (
 	"os"
 	"strings"
 	"sync"
+	"sync/atomic"
 	"testing"
 	"time"
 
@@ -416,12 +417,19 @@ func TestHistories(t *testing.T) {
 	var wg sync.WaitGroup
 	var mu sync.Mutex
 	machinery := 0
+	var stalls int32 // histories that ended in a stall: a few establish the verdict, each costs the stall limit in real time
 	for idx, c := range cases {
 		wg.Add(1)
 		sem <- struct{}{}
 		go func() {
 			defer wg.Done()
 			defer func() { <-sem }()
+			if atomic.LoadInt32(&stalls) >= 4 {
+				mu.Lock()
+				res.Hit("skipped-after-repeated-stalls")
+				mu.Unlock()
+				return
+			}
 			var evs []map[string]any
 			var err error
 			for attempt := 0; attempt < 3; attempt++ {
@@ -438,6 +446,8 @@ func TestHistories(t *testing.T) {
 			for _, e := range evs {
 				tw.Emit(e)
 				switch e["ev"] {
+				case "stall":
+					atomic.AddInt32(&stalls, 1)
 				case "up_done":
 					if s, _ := e["status"].(int); s != 200 {
 						res.Hit("upstream-refused")
